@@ -8,6 +8,7 @@ import (
 	"os"
 	"os/exec"
 	"strings"
+	"sync/atomic"
 	"time"
 )
 
@@ -20,24 +21,44 @@ type WorkerResult struct {
 	Stderr   string   // tail of stderr
 	ExitCode int
 	Err      error
+	// ExternalKill: the process was ended by a SIGKILL that neither the harness nor the worker's own runtime sent
+	ExternalKill bool
 }
 
 // RunWorker re-executes this binary as a worker and collects its stdout lines.
 // stdin, if non-nil, is fed to the child. env entries are appended to the environment.
 func RunWorker(name string, args []string, stdin io.Reader, env ...string) WorkerResult {
+	var in []byte
+	if stdin != nil {
+		in, _ = io.ReadAll(stdin)
+	}
+	res, ext := runWorkerOnce(name, args, in, stdin != nil, env)
+	if ext {
+		// killed from outside (host out-of-memory killer). Not retried here - a worker may own a directory that a second run
+		// would find half written - but marked, so that the caller's report becomes a cap (Ctx.Violate) and not a verdict.
+		res.ExternalKill = true
+		res.Stderr += "\n" + ExternalKillMarker
+	}
+	return res
+}
+
+func runWorkerOnce(name string, args []string, in []byte, hasIn bool, env []string) (WorkerResult, bool) {
 	self, err := os.Executable()
 	if err != nil {
-		return WorkerResult{Err: err, ExitCode: -1}
+		return WorkerResult{Err: err, ExitCode: -1}, false
 	}
 	cmd := exec.Command(self, append([]string{"worker", name}, args...)...)
 	cmd.Env = append(os.Environ(), env...)
-	cmd.Stdin = stdin
+	if hasIn {
+		cmd.Stdin = bytes.NewReader(in)
+	}
 	var out bytes.Buffer
 	var errb tailBuf
 	cmd.Stdout = &out
 	cmd.Stderr = &errb
 	// watchdog (not an oracle): a worker that is still running after 15 minutes is killed; its callers see a worker
 	// that died without its final line
+	var watchdog int32
 	err = cmd.Start()
 	if err == nil {
 		done := make(chan struct{})
@@ -45,6 +66,7 @@ func RunWorker(name string, args []string, stdin io.Reader, env ...string) Worke
 			select {
 			case <-done:
 			case <-time.After(15 * time.Minute):
+				atomic.StoreInt32(&watchdog, 1)
 				cmd.Process.Kill()
 			}
 		}()
@@ -63,7 +85,7 @@ func RunWorker(name string, args []string, stdin io.Reader, env ...string) Worke
 		res.Lines = append(res.Lines, sc.Text())
 	}
 	res.Stderr = errb.String()
-	return res
+	return res, ExternallyKilled(cmd.ProcessState, atomic.LoadInt32(&watchdog) == 1, res.Stderr)
 }
 
 // tailBuf keeps the first 4 KiB and last 16 KiB written to it.
